@@ -86,6 +86,11 @@ func WorkerMain(runCell func(string) string) {
 // a worker that reported a hang or panic is killed and replaced.
 func RunAll(cases []string) []string {
 	out := make([]string, len(cases))
+	// scratch directory of the cells that run on the real file system; workers inherit A08_TMP
+	if root, err := os.MkdirTemp("", "a08-"); err == nil {
+		os.Setenv("A08_TMP", root)
+		defer os.RemoveAll(root)
+	}
 	nw := runtime.NumCPU()
 	if nw > 16 {
 		nw = 16
@@ -141,4 +146,3 @@ func RunAll(cases []string) []string {
 	wg.Wait()
 	return out
 }
-
